@@ -263,6 +263,8 @@ class Canon:
             self.collect_loops(body)
             self.iter_loops(body)
             self.for_tuple_patterns(body)
+            self.deref_addr(body)
+            self.demote_accumulators(body)       # (again: an element borrowed from `iter_mut()` is an indexed cell only now)
             self.assign_forms(body)
         self.done.add(p)
 
@@ -790,6 +792,19 @@ class Canon:
                         via, cell = p_, _strip(p_["init"])
                 lp = _strip(l_.get("e") or {}) if l_.get("k") in ("Semi", "Expr") else {}
                 wb = _strip(w_.get("e") or {}) if w_.get("k") in ("Semi", "Expr") else {}
+                seed_ = None
+                if cell.get("k") != "Index" and via is None and lp.get("k") in ("For", "While") and wb.get("k") == "Assign" and _strip(wb["l"]).get("k") == "Index" and self._pure(_strip(wb["l"])) and \
+                        (self._pure(cell) or (cell.get("k") == "Call" and not cell.get("args") and str(_callee(cell) or "").endswith(("Zero::zero", "One::one", "::zero", "::one")))) and \
+                        _strip(wb["r"]).get("k") == "Local" and _strip(wb["r"]).get("v") == a_["pat"]["v"]:
+                    # `let mut a = Z; for .. { a += e; } X[i] = a;` (Z any side-effect free start value, usually zero)  ->  `X[i] = Z; for .. { X[i] += e; }`:
+                    # the cell takes the start value first and then exactly the same additions in the same order
+                    tgt_ = _strip(wb["l"])
+                    base_ = _strip(tgt_["base"])
+                    while base_.get("k") == "Field":
+                        base_ = _strip(base_["e"])
+                    bv_ = base_.get("v") if base_.get("k") == "Local" else None
+                    if bv_ is not None and not any(x.get("k") == "Local" and x.get("v") == bv_ for x in _walk(cell)):
+                        seed_, cell = cell, tgt_
                 if cell.get("k") != "Index" or lp.get("k") not in ("For", "While") or wb.get("k") != "Assign" or not self._pure(cell):
                     continue
                 av = a_["pat"]["v"]
@@ -804,6 +819,8 @@ class Canon:
                 if len(tg) != len(in_loop) or not tg:
                     continue
                 base = _strip(cell["base"])
+                while seed_ is not None and base.get("k") == "Field":
+                    base = _strip(base["e"])
                 bv = base.get("v") if base.get("k") == "Local" else None
                 if bv is None or any(x.get("k") == "Local" and x.get("v") == bv for x in _walk(lp)):
                     continue
@@ -818,7 +835,17 @@ class Canon:
                         if x.get("sp") and y["l"].get("sp"):
                             x["sp"] = list(y["l"]["sp"])
                     y["l"] = c_
-                blk["stmts"] = [x for x in sts if x is not a_ and x is not w_ and x is not via]
+                if seed_ is not None:
+                    # the write-back becomes the initial store, in the place of the `let`
+                    wb["r"] = seed_
+                    sp_a = list(a_.get("sp") or [0, 0, 0, 0])
+                    w_["sp"] = sp_a
+                    for x in _walk(w_):
+                        if x.get("sp"):
+                            x["sp"] = list(sp_a)
+                    blk["stmts"] = [(w_ if x is a_ else x) for x in sts if x is not w_]
+                else:
+                    blk["stmts"] = [x for x in sts if x is not a_ and x is not w_ and x is not via]
                 sts = blk["stmts"]
                 self.stats["demoted_accumulators"] = self.stats.get("demoted_accumulators", 0) + 1
                 i = 0
@@ -1475,6 +1502,19 @@ class Canon:
                 blk["stmts"] = [s_ for s_ in blk["stmts"] if not s_.get("canon_dead")]
 
     # ------------------------------------------------------------------ P8
+    def deref_addr(self, body):
+        """`*&mut P` / `*&P`  ->  `P` (what an element borrowed from an iterator becomes once the loop is an index loop)."""
+        for n in list(_walk(body)):
+            if n.get("k") == "Unary" and n.get("op") == "*" and isinstance(n.get("e"), dict):
+                a = _strip(n["e"])
+                if a.get("k") == "AddrOf" and isinstance(a.get("e"), dict):
+                    inner = a["e"]
+                    keep = {kk: n.get(kk) for kk in ("sp",)}
+                    n.clear()
+                    n.update(inner)
+                    if keep.get("sp") and not n.get("sp"):
+                        n["sp"] = keep["sp"]
+
     def continue_guards(self, body):
         """In a loop body:  `if c { continue; }  rest`  ->  `if !c { rest }`  (the un-nested spelling of a filter)."""
         again = True
